@@ -393,8 +393,9 @@ func c07Oracle(cs c07Case, re *regexp2.Regexp, o *core.Outcome) (seq []c07M, ok 
 
 // c07Line builds the protocol line for the Lean model: attempt tables (one row per \G origin,
 // identical rows shared), finder answers, minimum length.
-func c07Line(cs c07Case, re *regexp2.Regexp) (string, bool) {
+func c07Line(cs c07Case, re *regexp2.Regexp, o *core.Outcome) (string, bool) {
 	rs, n := cs.Runes, len(cs.Runes)
+	skips := false
 	rowIdx := map[string]int{}
 	var rows []string
 	tsmap := make([]int, n+1)
@@ -407,6 +408,20 @@ func c07Line(cs c07Case, re *regexp2.Regexp) (string, bool) {
 				return "", false
 			}
 			ok, q := regexp2.VerifFindFirstChar(re, rs, pos, ts)
+			if !ok || q != pos {
+				skips = true
+			}
+			// the shape the theorems assume of a single execution (AttemptShape)
+			if m != nil {
+				bad := m.RuneIndex != pos || m.RuneIndex+m.RuneLength > n
+				if cs.RTL {
+					bad = m.RuneIndex+m.RuneLength != pos || m.RuneIndex < 0
+				}
+				if bad {
+					o.Fail = c07Fail("attempt-shape", fmt.Sprintf("an execution started at %d (\\G origin %d) reports the overall match (%d,%d): it does not begin (right-to-left: end) at the start position", pos, ts, m.RuneIndex, m.RuneLength), "match anchored at the attempt position", fmt.Sprintf("(%d %d)", m.RuneIndex, m.RuneLength))
+					return "", false
+				}
+			}
 			if pos > 0 {
 				sb.WriteByte(' ')
 			}
@@ -429,6 +444,12 @@ func c07Line(cs c07Case, re *regexp2.Regexp) (string, bool) {
 	minLen := 0
 	if code := regexp2.VerifCode(re); code != nil && code.FindOptimizations != nil {
 		minLen = code.FindOptimizations.MinRequiredLength
+	}
+	if skips {
+		o.Buckets = append(o.Buckets, "finder-skips-or-rejects")
+	}
+	if minLen > 0 {
+		o.Buckets = append(o.Buckets, "minlen>0")
 	}
 	return core.S("c07", core.S("n", fmt.Sprint(n)), core.S("rtl", core.SBool(cs.RTL)), core.S("minlen", fmt.Sprint(minLen)),
 		core.S("ks", core.SInts(c07Ns)), core.S("tsmap", core.SInts(tsmap)), core.S("rows", strings.Join(rows, " "))), true
@@ -472,7 +493,7 @@ func c07Check(c *core.Ctx, cases []c07Case) []core.Outcome {
 		if strings.Contains(cs.Pat, `\G`) {
 			o.Buckets = append(o.Buckets, "uses-\\G")
 		}
-		line, ok := c07Line(cs, re)
+		line, ok := c07Line(cs, re, o)
 		if !ok {
 			continue
 		}
@@ -554,7 +575,7 @@ func init() {
 		core.RunLeg(c, core.Leg[c07Case]{
 			Name: "A", Kind: "correspondence+oracle",
 			Rule:   "random patterns: alternations (1-3 branches, empty branches) of sequences of 1-3 atoms drawn from nullable (a*, x?, (a|), .*?), zero-width (\\b \\B ^ $ \\G \\A \\z \\Z, look-ahead/-behind incl. (?<=a*), (?<!\\G)) and consuming leaves, nested in capturing/non-capturing/atomic/look-around groups with quantifiers; RightToLeft in half the cases, Multiline/IgnoreCase/Singleline sometimes; inputs of 0-12 runes over {a,b,x,é,日,😀,\\n,space}; n in {-1,0,1,2,3}. non-trivial = at least one match; distinct by (pattern, options, input). Oracle (no model): FindRunesMatch/FindStringMatch+FindNextMatch strictly advancing, disjoint, no repeated empty match, <= len+1 matches, resume position = match end; every match = VerifNaiveScan from the previous end (one further after an empty match, \\G there); FindAllRunesIndex/FindAllStringIndex and compat FindAllStringIndex/FindAllIndex/FindAllStringSubmatchIndex/FindAllString = sequence minus empty matches adjacent to the match before, truncated to n, nil when empty. Correspondence: Lean iterate/findAll/compatForEach over the table of VerifAttemptAt results for every (\\G origin, position) + VerifFindFirstChar answers + MinRequiredLength vs the Go sequences (incl. resume positions)",
-			Corpus: corpus, N: c.N(4000, 150000), Gen: c07Gen, Check: c07Check, Batch: 1000,
+			Corpus: corpus, N: c.N(6000, 400000), Gen: c07Gen, Check: c07Check, Batch: 1000,
 		})
 	})
 }
